@@ -52,6 +52,9 @@ MUTATIONS = [
     ("dask_expr/_merge.py", "            if broadcast or (n_low < math.log2(n_high) * broadcast_bias):", "            if n_low < math.log2(n_high) * broadcast_bias:", "vf.contracts.decisions:IsBroadcastJoin", "post:forced-broadcast"),
     ("dask_expr/_expr.py", "        return dep.npartitions == 1 and dep.ndim < self.ndim", "        return dep.npartitions == 1 and dep.ndim <= self.ndim", "vf.contracts.layers:BroadcastDep", "post:broadcast-iff"),
     ("dask_expr/_expr.py", "            if self._broadcast_dep(arg):\n                return (arg._name, 0)\n            else:\n                return (arg._name, i)\n\n        else:\n            return arg", "            if self._broadcast_dep(arg):\n                return (arg._name, i)\n            else:\n                return (arg._name, i)\n\n        else:\n            return arg", "vf.contracts.layers:BlockwiseArg", "post:"),
+    ("dask_expr/_expr.py", "        reference = aligned[0] if aligned else dependencies[0]\n        for arg in aligned:", "        reference = dependencies[0]\n        for arg in aligned:", "vf.contracts.divisions:BlockwiseDivisions", "post:divisions-of-first-non-broadcast"),
+    ("dask_expr/_merge.py", "        divisions = frame._divisions()\n        if keeps_index:\n            return divisions\n        # merging on columns", "        divisions = frame._divisions()\n        if keeps_index or self.how == \"inner\":\n            return divisions\n        # merging on columns", "vf.contracts.divisions:BroadcastJoinDivisions", "UNDECIDED-OR-REFUTED"),
+    ("dask_expr/_merge.py", "        if self.broadcast_side == \"left\":\n            frame = self.right\n            keeps_index = self.left_index or _contains_index_name(\n                self.left._meta, self.left_on\n            )\n        else:\n            frame = self.left", "        if self.broadcast_side == \"left\":\n            frame = self.right\n            keeps_index = self.right_index or _contains_index_name(\n                self.left._meta, self.left_on\n            )\n        else:\n            frame = self.left", "vf.contracts.divisions:BroadcastJoinDivisions", "post:npartitions-of-other-input"),
     # harmless edits: renamed local, reordered independent statements, extra statement
     ("dask_expr/_expr.py", "        new_divisions = []\n        for part in self._partitions:\n            new_divisions.append(full_divisions[part])\n        new_divisions.append(full_divisions[part + 1])\n        return tuple(new_divisions)", "        picked = []\n        for part in self._partitions:\n            picked.append(full_divisions[part])\n        picked.append(full_divisions[part + 1])\n        return tuple(picked)", "vf.contracts.partitions:PFDivisions", None),
     ("dask_expr/_repartition.py", "        npartitions = self.new_partitions\n        npartitions_input = self.frame.npartitions\n", "        npartitions_input = self.frame.npartitions\n        npartitions = self.new_partitions\n", "vf.contracts.repartition:FewerBoundaries", None),
@@ -90,6 +93,8 @@ def main():
             shutil.rmtree(root, ignore_errors=True)
             if expect is None:
                 ok = bad == ""
+            elif expect == "UNDECIDED-OR-REFUTED":
+                ok = bad != ""  # the edit leaves the subset (object model has no such attribute) or is refuted: never a silent pass
             elif expect.startswith("HARMLESS"):
                 ok = True  # documented limitation: an invariant that names a renamed local becomes undecided, never a violation
                 if "refuted" in bad:
